@@ -51,7 +51,7 @@ HEADER = ("From Coq Require Import ZArith QArith List Bool.\n"
 CTYPE = "(Z * Z) * (Z * Z) * position * list phase * list eval * onode"
 CHECK = ("fun c => let '(co, mx, p0, phs, evs, obs) := c in "
          "check_search (fq co) (fq mx) (1 # 100000)%Q p0 phs evs obs")
-SHOW = "fun c => let '(co, mx, p0, phs, evs, obs) := c in show_search (fq co) (fq mx) p0 phs evs"
+SHOW = "fun c => let '(co, mx, p0, phs, evs, obs) := c in show_search (fq co) (fq mx) p0 phs evs obs"
 PRIOR_TOL = Fraction(1, 100000)
 MAX_REPORTS = 5        # replays written per run (every violating search is counted in the evidence)
 
@@ -487,13 +487,97 @@ def phase_noise(spec, j, n):
     return nz
 
 
-def start_position(size, opening):
+def start_position(size, opening, start=None):
+    """the root position of a spec: `start` (a structural description: size, ply, reserves, stacks top first - built
+    directly, no parser and no rule of the implementation involved) or the opening ids played from the empty board"""
     import tak
     from tak.model import encoding
+    if start is not None:
+        return takio.mk_pos(start)
     pos = tak.Position.from_config(tak.Config(size=size))
     for mid in opening:
         pos = pos.move(encoding.decode_move(size, mid))
     return pos
+
+
+DEFAULT_PIECES = {3: (10, 0), 4: (15, 0), 5: (21, 1), 6: (30, 1), 7: (40, 1), 8: (50, 2)}
+
+
+def tps_start(tps, reserves=None):
+    """the harness's own reading of a TPS string (not tak.ptn): rows from the top rank down, stacks bottom to top,
+    S/C marks the top piece; returns the structural description start_position() builds from.
+    reserves = ((white stones, caps), (black stones, caps)) or None = the default set minus what is on the board"""
+    rows, player, moveno = tps.split()
+    rows = rows.split("/")
+    size = len(rows)
+    board = [None] * (size * size)
+    for r, row in enumerate(rows):
+        y = size - 1 - r
+        x = 0
+        for cell in row.split(","):
+            if cell.startswith("x"):
+                k = int(cell[1:] or "1")
+                for _ in range(k):
+                    board[y * size + x] = []
+                    x += 1
+                continue
+            kind = "F"
+            if cell[-1] in "SC":
+                kind, cell = cell[-1], cell[:-1]
+            st = [("W" if ch == "1" else "B") + "F" for ch in cell]
+            st[-1] = st[-1][0] + kind
+            board[y * size + x] = st[::-1]            # top first
+            x += 1
+        assert x == size, tps
+    assert all(b is not None for b in board), tps
+    if reserves is None:
+        ds, dc = DEFAULT_PIECES[size]
+        cnt = {"W": [0, 0], "B": [0, 0]}
+        for sq in board:
+            for pc in sq:
+                cnt[pc[0]][1 if pc[1] == "C" else 0] += 1
+        reserves = ((ds - cnt["W"][0], dc - cnt["W"][1]), (ds - cnt["B"][0], dc - cnt["B"][1]))
+    return {"size": size, "ply": 2 * (int(moveno) - 1) + (int(player) - 1),
+            "stones": [list(reserves[0]), list(reserves[1])], "board": board, "tps": tps}
+
+
+def swap_colours(tps):
+    """the same position with the colours exchanged and the other side to move"""
+    rows, player, moveno = tps.split()
+    rows = rows.translate(str.maketrans("12", "21"))
+    rows = ",".join(rows.split(","))
+    # the x<n> run lengths must not be translated: redo them from the original
+    out = []
+    for a, b in zip(tps.split()[0].replace("/", ",/,").split(","), rows.replace("/", ",/,").split(",")):
+        out.append(a if a.startswith("x") else b)
+    return "".join(",".join(out).replace(",/,", "/")) + f" {3 - int(player)} {moveno}"
+
+
+# (tps, reserves or None, what the position is one move away from)
+NEAR_TERMINAL = [
+    ("2,2,1S/2,2,1S/1,1,x 1 5", None, "3x3: the move that fills the board also completes a road; the flat count favours the other side"),
+    ("1,2,1/2,1,2/2,1,x 1 5", None, "3x3: the filling move ends the game on flats (flat: win, wall: drawn count)"),
+    ("1,1,x/2,2,x/x3 1 3", None, "3x3: both sides one move from a road"),
+    ("1,2,x/2,1,x/x,x,1 2 3", None, "3x3: diagonal, nobody close; game goes on below the root"),
+    ("2,2,x,2/2,2,x2/x4/1,1,1,x 1 9", ((1, 0), (9, 0)), "4x4: the last reserve piece completes a road; the flat count favours the other side"),
+    ("2,1,2,1/1,2,1,2/2,1,2,1/1,2,1,x 1 9", None, "4x4: full board next move, no road: flats decide (8 v 7 / drawn with a wall)"),
+    ("2,x3/2,x3/2,1,1,1/x4 2 5", ((12, 0), (1, 0)), "4x4: last reserve piece, flat win or road for either side"),
+    ("x5/x5/2,2,2,x,1C/11111111111111112,2,2,x2/1,1,1,1,x 1 20", None, "5x5: white's last flat completes the first-rank road while black leads the flat count"),
+    ("1,1,1,1,x/2,2,2,2,x/x5/x5/x5 1 5", None, "5x5: both sides one move from a road"),
+    ("2,1,2,1,2/1,2,1,2,1/2,1,2,1,2/1,2,1,2,1/2,1,2,1,x 1 13", None, "5x5: full board next move, flats decide"),
+    ("1,1,x/1,2,2/x,2,1S 1 4", None, "3x3: a slide can give both sides a road at once"),
+]
+
+# capstone on top of a stack, a standing stone 2-3 squares away in a straight line, nothing in between
+STACKED_CAPSTONE = [
+    ("x5/x5/x2,2,x2/x2,2,x2/11C,x,2S,x2 1 4", "5x5: 2a1>11 sheds a flat and flattens c1"),
+    ("x5,122C/x5,1/x5,2/x3,1,1,1S/x6/x6 2 6", "6x6: 3f6-111 arrives alone on f3"),
+    ("x5/x5/x5/2,x4/121C,x2,2S,x 1 5", "5x5: 3a1>111"),
+    ("2S,x4/x5/21C,x4/x5/x3,1,1 1 5", "5x5: 2a3+11 upwards"),
+    ("x6/x6/x3,2,x2/1S,x2,112C,x,2/x6/1,x5 2 6", "6x6: 3d3<111 to the left"),
+    ("x4,21C/x5/x5/x4,2S/1,x4 1 5", "5x5: 2e5-... three squares down needs 3 stones: only the 2-step drops short; control"),
+]
+STACKED_CAPSTONE = STACKED_CAPSTONE + [(swap_colours(t), w + " (colours exchanged)") for t, w in STACKED_CAPSTONE[:5]]
 
 
 def do_search(spec, record_solver=False, select=False):
@@ -502,7 +586,7 @@ def do_search(spec, record_solver=False, select=False):
     from tak import mcts
     from tak.model import encoding
     size = spec["size"]
-    pos = start_position(size, spec["opening"])
+    pos = start_position(size, spec["opening"], spec.get("start"))
     n = encoding.n_moves_for_size(size)
     rec = Recorder(spec)
     ev = Evaluator(dict(spec["eval"], cutoff=spec["cutoff"], noisy=spec.get("noise") is not None), size)
@@ -868,7 +952,71 @@ def smash_specs(rng, sizes, per_size):
     return specs
 
 
-def gen_specs(run, count, sizes, max_budget, transformer=2, smash=()):
+def start_from_snap(sn):
+    size, stones, ply, board = sn
+    return {"size": size, "ply": ply, "stones": [list(stones[0]), list(stones[1])],
+            "board": [["WB"[c] + "FSC"[k] for c, k in sq] for sq in board]}
+
+
+def late_position(rng, size, max_plies):
+    """a random game played until every legal move ends it (or max_plies): the last position that is not over"""
+    import tak
+    sn = snap(tak.Position.from_config(tak.Config(size=size)))
+    for _ in range(max_plies):
+        leg = legal_ids(sn)
+        cand = sorted(i for i, c in leg.items() if outcome(c) is None)
+        if not cand:
+            break
+        # mostly flats, so that boards fill and reserves run down
+        flats = [i for i in cand if leg[i][3] and sum(len(q) for q in leg[i][3]) > sum(len(q) for q in sn[3])]
+        i = rng.choice(flats if flats and rng.random() < 0.8 else cand)
+        sn = leg[i]
+    return sn
+
+
+def fixed_start_spec(rng, start, kind, budget, tag, what, sampler="uniform", second=False):
+    phases = [{"path": [], "limit": budget}]
+    if second:
+        phases.append({"path": [rng.randrange(1000)], "limit": max(2, budget // 3)})
+    return {"size": start["size"], "opening": [], "start": start,
+            "eval": {"kind": kind, "seed": rng.randrange(1 << 30), "len": "max", "dyadic": True},
+            "sampler": {"mode": sampler, "seed": rng.randrange(1 << 30)},
+            "noise": None, "C": 4.0, "cutoff": 1e-6, "phases": phases, "tag": tag, "what": what}
+
+
+def near_terminal_specs(rng, generated):
+    """start positions one move from every kind of ending (both colours), budgets that visit the terminal children
+    several times; `generated` = (size, how many) late positions of random games on top of the fixed ones"""
+    specs = []
+    for j, (tps, reserves, what) in enumerate(NEAR_TERMINAL):
+        for swapped in (False, True):
+            t = swap_colours(tps) if swapped else tps
+            r = (reserves[1], reserves[0]) if (swapped and reserves) else reserves
+            st = tps_start(t, r)
+            budget = {3: 40, 4: 70, 5: 100}[st["size"]]
+            specs.append(fixed_start_spec(rng, st, ["uniform", "pm1"][(j + swapped) % 2], budget, "near-terminal",
+                                          what + (" (colours exchanged)" if swapped else ""),
+                                          sampler=["uniform", "torch"][j % 2 if st["size"] < 5 else 0]))
+    for size, k in generated:
+        for j in range(k):
+            sn = late_position(rng, size, {3: 30, 4: 60, 5: 120}[size])
+            specs.append(fixed_start_spec(rng, start_from_snap(sn), ["pm1", "uniform", "drift"][j % 3],
+                                          {3: 30, 4: 50, 5: 90}[size], "near-terminal",
+                                          "late position of a random game", sampler=["uniform", "torch", "skew"][j % 3]))
+    return specs
+
+
+def stacked_capstone_specs(rng, repeat=1):
+    specs = []
+    for r in range(repeat):
+        for j, (tps, what) in enumerate(STACKED_CAPSTONE):
+            specs.append(fixed_start_spec(rng, tps_start(tps), "uniform" if r == 0 else ["pm1", "cutoff_edge", "uniform"][(r + j) % 3],
+                                          rng.randint(2, 8), "stacked-capstone", what,
+                                          sampler=["torch", "uniform", "last", "skew"][(j + r) % 4], second=(j % 3 == 1)))
+    return specs
+
+
+def gen_specs(run, count, sizes, max_budget, transformer=2, smash=(), near_terminal=(), stacked=0):
     rng = run.rng
     specs = []
     kinds = ["uniform", "random", "random", "drift", "dense", "illegal_mass", "cutoff_edge", "pm1"]
@@ -910,6 +1058,10 @@ def gen_specs(run, count, sizes, max_budget, transformer=2, smash=()):
                       "phases": [{"path": [], "limit": 16 + 8 * t}, {"path": [rng.randrange(1000)], "limit": 12}]})
     if smash:
         specs.extend(smash_specs(rng, [5, 6], smash))
+    if near_terminal:
+        specs.extend(near_terminal_specs(rng, near_terminal))
+    if stacked:
+        specs.extend(stacked_capstone_specs(rng, stacked))
     return specs
 
 
@@ -933,9 +1085,11 @@ def tie_cutoff(run):
 
 def volumes(run):
     if run.quick:
-        return dict(count=150, sizes=[3, 4], max_budget=60, transformer=2, smash=(6, 1))
+        return dict(count=130, sizes=[3, 4], max_budget=60, transformer=2, smash=(6, 1),
+                    near_terminal=((3, 6), (4, 4)), stacked=1)
     # sizes 5 and 6 are a quarter of the searches (their trees and id tables are large)
-    return dict(count=800, sizes=[3, 4, 3, 4, 5, 3, 4, 6], max_budget=200, transformer=6, smash=(40, 12))
+    return dict(count=800, sizes=[3, 4, 3, 4, 5, 3, 4, 6], max_budget=200, transformer=6, smash=(40, 12),
+                near_terminal=((3, 60), (4, 40), (5, 20)), stacked=6)
 
 
 # --------------------------------------------------------------------------
@@ -1024,11 +1178,78 @@ def correspondence(run):
               samples, dict(dist), label="search")
 
 
+FIELD_CLAUSE = {
+    1: "each child holds the parent's position after its move (position differs from the model's move parent m)",
+    2: "children are one-to-one with the legal moves whose prior reaches the cutoff (a node's move differs from the model's)",
+    3: "v_zero: own evaluation / terminal outcome +1/-1/0 for the side to move by the rules (the model's Road.winner)",
+    4: "accumulated value (terminal: visits times outcome by the rules; expanded: own evaluation minus the children's)",
+    5: "visits are one plus the children's visits",
+    6: "child priors are the evaluator's priors renormalised",
+    7: "children are one-to-one with the legal moves whose prior reaches the cutoff (legal by the model's Tak.move): "
+       "terminal / expanded status or number of children differs",
+    8: "an unvisited node carries no statistics",
+    9: "children are one-to-one with the legal moves whose prior reaches the cutoff (legal by the model's Tak.move): "
+       "the children's moves differ",
+}
+
+
+def first_difference(spec, model_view):
+    """locate the node the model's view names and describe it on the implementation's tree (a concrete input)"""
+    import re
+    m = re.search(r"Some\s*\(\s*Some\s*\(\[([^\]]*)\],\s*(\d+)\)", model_view or "")
+    if not m:
+        return None
+    path = [int(x) for x in re.findall(r"-?\d+", m.group(1))]
+    field = int(m.group(2))
+    trace = do_search(spec)
+    node = trace.get("tree")
+    for i in path:
+        if node is None or not node.children or i >= len(node.children):
+            node = None
+            break
+        node = node.children[i]
+    out = {"node_path": path, "field": field, "clause": FIELD_CLAUSE.get(field, "?")}
+    if node is not None:
+        from tak.model import encoding
+        sn = snap(node.position)
+        leg = legal_ids(sn)
+        out.update({"position": j_snap(sn), "move_into_it": None if node.move is None else takio.j_move(node.move),
+                    "impl": {"visits": node.simulations, "value": node.value, "v_zero": node.v_zero,
+                             "outcome_by_impl_winner": outcome(sn),
+                             "children": None if node.children is None else [takio.j_move(c.move) for c in node.children][:120],
+                             "n_legal_by_impl_move": len(leg)},
+                    "model": "see model_view: (visits, value, v_zero, outcome by Road.winner, children's moves) of this node"})
+        mm = re.search(r"Some\s*\[([-\d;\s]*)\]\)\s*,\s*\d+%nat\)", model_view)     # the model's children, as move ids
+        if mm and node.children is not None:
+            size = sn[0]
+            model_ids = [int(v) for v in re.findall(r"-?\d+", mm.group(1))]
+            impl_ids = []
+            for c in node.children:
+                try:
+                    impl_ids.append(encoding.encode_move(size, c.move))
+                except KeyError:
+                    impl_ids.append(-1)
+
+            def show(i):
+                return {"id": i, "move": takio.j_move(encoding.decode_move(size, i)) if 0 <= i < encoding.n_moves_for_size(size) else None}
+            out["children_the_model_has_and_the_implementation_lacks"] = [show(i) for i in model_ids if i not in impl_ids][:10]
+            out["children_the_implementation_has_and_the_model_lacks"] = [show(i) for i in impl_ids if i not in model_ids][:10]
+    return out
+
+
 def report(run, res, model_view):
     spec, problems = res["spec"], res["problems"]
     clause = problems[0]["clause"] if problems else "the model's replay of the recorded streams gives a different tree"
+    fd = None
+    if not problems and model_view:
+        try:
+            fd = first_difference(spec, model_view)
+        except Exception as e:  # noqa
+            fd = {"error": repr(e)[:200]}
+        if fd and fd.get("clause"):
+            clause = fd["clause"]
     run.violation(f"search-{spec_key(spec)}", {
-        "clause": clause, "spec": spec,
+        "clause": clause, "spec": spec, "first_difference_with_the_model": fd,
         "root_position": res["root_position"],
         "auditor_problems": problems,
         "impl_tree": res["impl_tree"],
